@@ -10,6 +10,7 @@
 package c16
 
 import (
+	"reflect"
 	"fmt"
 	"sort"
 	"strconv"
@@ -347,6 +348,34 @@ func we(v any, err error) any {
 		return withErr{v, "error: " + err.Error()}
 	}
 	return withErr{v, "nil"}
+}
+
+// scribble overwrites the TOP level of a result the way its owner may: integer elements of a slice and integer values
+// of a map become -7777. Nested containers are left alone: a result may legitimately hold the caller's own inner maps
+// or slices (FilterMapCollection, PartitionMap, ... return collections of the maps they were given).
+func scribble(v reflect.Value) {
+	switch v.Kind() {
+	case reflect.Interface, reflect.Pointer:
+		if !v.IsNil() {
+			scribble(v.Elem())
+		}
+	case reflect.Slice:
+		for i := 0; i < v.Len(); i++ {
+			if el := v.Index(i); el.Kind() == reflect.Int {
+				el.SetInt(-7777)
+			}
+		}
+	case reflect.Map:
+		for _, k := range v.MapKeys() {
+			if v.MapIndex(k).Kind() == reflect.Int {
+				v.SetMapIndex(k, reflect.ValueOf(-7777))
+			}
+		}
+	case reflect.Struct: // withErr{value, error text}
+		for i := 0; i < v.NumField(); i++ {
+			scribble(v.Field(i))
+		}
+	}
 }
 
 // renderRes renders a result over its length (what a caller observes).
@@ -792,6 +821,32 @@ func prop(c Case, r *pbt.R) error {
 	}
 	if len(c.Calls) == 2 {
 		r.Label("pair:" + classNames[hs[0].class] + " then " + classNames[hs[1].class])
+	}
+	// Epilogue: a fresh result belongs to the caller. The case overwrites the top level of every fresh result it received
+	// (-7777, a value no argument holds) and repeats every call: no answer may contain that value (the library keeps no
+	// reference to a result it handed out) and the arguments are still what they were.
+	final := e.snap()
+	for k := range results {
+		if results[k].h.class == clFresh {
+			scribble(reflect.ValueOf(results[k].val))
+		}
+	}
+	if now := e.snap(); now != final {
+		return fmt.Errorf("%v: overwriting the RESULTS of the fresh helpers changed an argument (a result shares storage with it)", c)
+	}
+	for i, cl := range c.Calls {
+		h := hs[i]
+		if h.class != clFresh {
+			continue
+		}
+		if again, p := callHelper(h, e, cl); p == "" && again != nil {
+			if got := renderRes(again); strings.Contains(got, "-7777") {
+				return fmt.Errorf("%v: after the caller overwrote the results it had received with -7777, call %d %s{n=%d f=%d} repeated with unchanged arguments returns %s: the library kept a reference to a result it had handed out", c, i, h.name, cl.N, cl.F, got)
+			}
+		}
+	}
+	if now := e.snap(); now != final {
+		return fmt.Errorf("%v: repeating the calls changed an argument", c)
 	}
 	return nil
 }
